@@ -258,6 +258,8 @@ Proof.
   intros L S. change ((ty :: be32 (len body) ++ body) ++ rest)
     with (ty :: ((be32 (len body) ++ body) ++ rest)).
   cbn [parse_sections]. rewrite S. rewrite <- !app_assoc. rewrite u32_be32 by lia.
+  replace (Z.min (len body) (len (body ++ rest) + 1)) with (len body)
+    by (rewrite len_app; pose proof (len_nonneg rest); lia).
   take_solve body rest (eq_refl (len body)). reflexivity.
 Qed.
 
